@@ -78,6 +78,10 @@ def sim_cases(draw):
         sched = draw(st.sampled_from(['silence', 'trickle', 'eintr+trickle']))
     else:
         sched = draw(st.sampled_from(['silence', 'trickle', 'burst', 'match', 'match+trickle', 'exit', 'eintr', 'eintr+trickle']))
+    if kind == 'pty' and Teff is not None and entry != 'waitnoecho' and draw(st.integers(0, 7)) == 0:
+        # the child exits but something else keeps its terminal open and silent: no hang-up, no data; the death
+        # is only visible through the liveness checks, and the call must still end by its deadline
+        sched = 'exit-noclose'
     acts = []
     tm = None
     if 'trickle' in sched:
@@ -104,6 +108,9 @@ def sim_cases(draw):
             # precedes the exit by more than that is the excluded known-finding class)
             acts.append({'t': te + draw(st.integers(0, 3)) * 1e-6, 'op': 'exit', 'status': draw(st.sampled_from([0, 256, 9]))})
         acts.append({'t': te + draw(st.integers(0, 3)) * 1e-6, 'op': 'close'})
+    if sched == 'exit-noclose':
+        te = base * draw(st.sampled_from([0.0, 0.0, 0.4, 0.99, 1.01, 2.0]))
+        acts.append({'t': te, 'op': 'exit', 'status': draw(st.sampled_from([0, 256, 9]))})
     if sched.startswith('eintr') and kind != 'socket':
         for f in draw(st.lists(st.sampled_from([0.2, 0.5, 0.8, 0.95]), min_size=1, max_size=3, unique=True)):
             acts.append({'t': base * f, 'op': 'eintr'})
@@ -136,6 +143,9 @@ def expected(case, observed=None):
         tm, te, first_data = observed
     if entry == 'read_nonblocking':
         tm = first_data
+    if case['sched'] == 'exit-noclose':
+        # no data ever: EOF (the death was noticed) and TIMEOUT are both right; what is decided is the deadline
+        return {'kind': 'eof-or-timeout', 'at': te}
     if Teff is None:
         if tm is not None and (te is None or tm <= te):
             return {'kind': 'match', 'at': tm}
